@@ -80,6 +80,23 @@ def _zero_constraint_counts(
   efc_nnz_out[worldid] = 0
 
 
+@wp.kernel
+def _nnz_overflow(
+  # Data in:
+  njmax_nnz_in: int,
+  # In:
+  efc_nnz_in: wp.array[int],
+  # Data out:
+  overflow_out: wp.array[int],
+):
+  worldid = wp.tid()
+
+  # a row whose non-zeros do not fit is dropped by its builder before it records its address,
+  # so the requested total is the only reliable witness of the overflow
+  if efc_nnz_in[worldid] > njmax_nnz_in:
+    overflow_out[worldid] = overflow_out[worldid] | types.OverflowType.NJMAX_NNZ
+
+
 @wp.func
 def _efc_row(
   # Model:
@@ -5835,3 +5852,6 @@ def make_constraint(m: types.Model, d: types.Data):
             d.efc.frictionloss,
           ],
         )
+
+  if m.is_sparse:
+    wp.launch(_nnz_overflow, dim=d.nworld, inputs=[d.njmax_nnz, efc_nnz], outputs=[d.overflow])
